@@ -110,7 +110,7 @@ Definition opt_ge (a b : option N) : bool :=     (* lower *)
 Definition opt_pat (a b : option ustring) : bool :=
   match b with None => true | Some tp => match a with Some sp => ustr_eqb sp tp | None => false end end.
 
-Inductive target := TId (t : id) | TProps (ps : list prop) (deny : bool).
+Inductive target := TId (t : id) | TProps (ps : list prop) (deny : bool) | TTuple (ts : list id).
 
 (* the schema {"type":"null"} (other keywords allowed, but no "$ref", whose
    siblings draft-07 ignores) *)
@@ -241,7 +241,7 @@ Section Covers.
       | VItem t' => cov b nn (TId t')
       | VStruct ps => cov b nn (TProps ps deny)
       | VSimple => null_only b
-      | VTuple _ => false
+      | VTuple ts => cov b nn (TTuple ts)
       end.
 
     Section Obj.
@@ -305,6 +305,16 @@ Section Covers.
            | Some (Some vt) => negb deny && addl_ok vt
            end.
 
+      (* fixed-length heterogeneous arrays -> tuples *)
+      Definition tuple_case (nn : bool) (ts : list id) : bool :=
+        ty_is nn ty [TArray] &&
+        match ik with ItemsTuple => true | _ => false end &&
+        match mni, mxi with
+        | Some a, Some b => N.eqb a (N.of_nat (length ts)) && N.eqb b (N.of_nat (length ts))
+        | _, _ => false
+        end &&
+        cov_list items ts.
+
       (* no union, no allOf/not, no "$ref"; the type is not a wrapper/Option *)
       Definition leaf_ok (nn : bool) (d : details) : bool :=
         match d with
@@ -345,14 +355,7 @@ Section Covers.
             | _, _ => false
             end &&
             elem_ok t'
-        | DTuple ts =>
-            ty_is nn ty [TArray] &&
-            match ik with ItemsTuple => true | _ => false end &&
-            match mni, mxi with
-            | Some a, Some b => N.eqb a (N.of_nat (length ts)) && N.eqb b (N.of_nat (length ts))
-            | _, _ => false
-            end &&
-            cov_list items ts
+        | DTuple ts => tuple_case nn ts
         | DMap k vt =>
             ty_is nn ty [TObject]
             && match get_det T k with Some DString => true | _ => false end
@@ -369,7 +372,8 @@ Section Covers.
       match v_det v with
       | VItem t' => cov sc false (TId t')
       | VStruct ps => cov sc false (TProps ps deny)
-      | _ => false
+      | VTuple ts => cov sc false (TTuple ts)
+      | VSimple => false
       end.
 
     (* a branch of oneOf/anyOf against an externally tagged enum: a string enum
@@ -545,6 +549,11 @@ Section Covers.
             | None, None, None, None, None => struct_case ty props req ap None nn0 ps deny
             | _, _, _, _, _ => false
             end
+        | TTuple ts =>
+            match ref, anyo, oneo, allo, no with
+            | None, None, None, None, None => tuple_case ty ik items mni mxi nn0 ts
+            | _, _, _, _, _ => false
+            end
         | TId t0 => go FT nn0 t0
         end.
     End Obj2.
@@ -553,7 +562,7 @@ Section Covers.
   Fixpoint covers (s : schema) {struct s} : bool -> target -> bool :=
     match s with
     | SBool false => fun _ _ => true
-    | SBool true => fun _ tg => match tg with TId t => accepts_any FT t | TProps _ _ => false end
+    | SBool true => fun _ tg => match tg with TId t => accepts_any FT t | _ => false end
     | SObj ty fmt enum cst nv sv ik items ai mni mxi uq props req ap mnp mxp allo anyo oneo no ref dflt title =>
         covers_obj covers ty fmt enum cst nv sv ik items mni mxi props req ap allo anyo oneo no ref
     end.
